@@ -49,8 +49,8 @@ def plan(tier):
 
 
 def n_cases(tier):
-    return {'A1': 5000, 'A2': 5000, 'B': 6000, 'S': 3000, 'T': 60} if tier == 'thorough' else \
-        {'A1': 90, 'A2': 90, 'B': 120, 'S': 60, 'T': 6}
+    return {'A1': 5000, 'A2': 5000, 'B': 6000, 'S': 3000, 'W': 40, 'T': 60} if tier == 'thorough' else \
+        {'A1': 90, 'A2': 90, 'B': 120, 'S': 60, 'W': 3, 'T': 6}
 
 
 def slow_sinks(prog, rng):
@@ -126,6 +126,9 @@ def gen_case(rng, fam):
                      for _ in range(np_)]
             awaiting = rng.random() < 0.7
         return {'family': fam, 'prog': prog, 'producers': prods, 'awaiting': awaiting, 'bound': [kind, n]}
+    if fam == 'W':
+        return {'family': 'W', 'wrapper': rng.choice(['dataframe', 'batch']), 'n': rng.randrange(1, 5), 'svc': rng.choice([0.25, 0.5, 1.0]),
+                'map': rng.random() < 0.5}
     if fam == 'S':
         mid = rng.choice(['none', 'map', 'buffer', 'buffer', 'map_async', 'rate_limit'])
         return {'family': 'S', 'src': rng.choice(['periodic', 'periodic', 'iterable', 'textfile', 'filenames']),
@@ -642,7 +645,62 @@ def check_sources(case, counters, sets):
     return r, viols
 
 
+def check_wrapper(case, counters, sets):
+    """emit() of the collection wrappers (streamz.collection.Streaming: DataFrame / Series / Batch) on an asynchronous
+    stream: what it returns must be awaitable and must not complete before the consumers have finished"""
+    import asyncio
+    import pandas as pd
+    from streamz import Stream
+    from streamz.dataframe import DataFrame
+    from streamz.batch import Batch
+    from ..vloop import virtual_env
+    viols = []
+    ev = []
+    with virtual_env() as env:
+        loop = env.loop
+        src = Stream(asynchronous=True)
+        if case['wrapper'] == 'dataframe':
+            example = pd.DataFrame({'x': [1.0]})
+            coll = DataFrame(src, example=example)
+            batches = [pd.DataFrame({'x': [float(i)]}) for i in range(case['n'])]
+        else:
+            coll = Batch(src, example=[1])
+            batches = [[i] for i in range(case['n'])]
+
+        async def consumer(x):
+            ev.append(('START', len(ev)))
+            await asyncio.sleep(case['svc'])
+            ev.append(('END', len(ev)))
+        (src.map(lambda x: x) if case['map'] else src).sink(consumer)
+
+        async def producer():
+            for b in batches:
+                r = coll.emit(b)
+                ev.append(('EMIT_RETURNED', r is not None and hasattr(r, '__await__')))
+                if r is not None and hasattr(r, '__await__'):
+                    await r
+                ev.append(('EMIT_DONE', sum(1 for e in ev if e[0] == 'START') - sum(1 for e in ev if e[0] == 'END')))
+        task = loop.create_task(producer())
+        loop.drive(until_vt=case['n'] * (case['svc'] + 1) + 5, max_iters=100000)
+    counters['W_wrapper_emits_checked'] = counters.get('W_wrapper_emits_checked', 0) + case['n']
+    if any(e[0] == 'EMIT_RETURNED' and not e[1] for e in ev):
+        viols.append({'key': 'C03:emit-returns-nothing-to-await@Streaming.emit', 'what': '%s(asynchronous stream).emit(batch) returned nothing awaitable: '
+                      'the caller cannot wait for the consumers (nor learn of their failures)' % case['wrapper'], 'case': case})
+    elif any(e[0] == 'EMIT_DONE' and e[1] > 0 for e in ev):
+        viols.append({'key': 'C03:emit-done-with-open-consumer-call@Streaming.emit', 'what': 'the awaitable of %s.emit completed while a consumer call was open'
+                      % case['wrapper'], 'case': case})
+
+    class Res:
+        pass
+    r = Res()
+    r.stop = 'idle'
+    r.interesting = True
+    return r, viols
+
+
 def check_case(case, counters, sets):
+    if case['family'] == 'W':
+        return check_wrapper(case, counters, sets)
     if case['family'] == 'S':
         return check_sources(case, counters, sets)
     if case['family'] == 'T':
@@ -655,7 +713,7 @@ def run_shard(seed, tier, shard, nshards):
     out = {'evaluations': 0, 'keys': [], 'violations': [], 'samples': [], 'counters': {},
            'sets': {}, 'inconclusive': []}
     plan_n = n_cases(tier)
-    for fam in ('A1', 'A2', 'B', 'S', 'T'):
+    for fam in ('A1', 'A2', 'B', 'S', 'W', 'T'):
         for k in range(plan_n[fam]):
             case = gen_case(rng, fam)
             r, viols = check_case(case, out['counters'], out['sets'])
